@@ -50,6 +50,7 @@ type Contract struct {
 	Pure     bool // no heap / ghost effect
 	Inline   []string
 	Observe  [][2]string // callee, param -> stored in ghost $obs
+	GhostSet [][3]string // callee, ghost name, expr
 	CallPre  [][3]string // label, callee, expr
 	Inject   string      // parameter name for injectivity lemma on $obs
 	Returns  string      // literal result (case-split instantiation)
@@ -267,6 +268,15 @@ func (cs *ContractSet) parseFile(path, pkg string, prefix string, trusted bool) 
 					return bad("observe CALLEE PARAM")
 				}
 				cur.Observe = append(cur.Observe, [2]string{fs[0], fs[1]})
+			case "ghostset":
+				// ghostset CALLEE :: $name = expr   (caller-side ghost assignment right after each call of CALLEE;
+				// expr may use the callee's parameter names as arg_x and its result names)
+				i := strings.Index(rest, "::")
+				eq := strings.Index(rest, "=")
+				if i < 0 || eq < i {
+					return bad("ghostset CALLEE :: $name = expr")
+				}
+				cur.GhostSet = append(cur.GhostSet, [3]string{strings.TrimSpace(rest[:i]), strings.TrimSpace(rest[i+2 : eq]), strings.TrimSpace(rest[eq+1:])})
 			case "callpre":
 				i := strings.Index(rest, "::")
 				if i < 0 {
